@@ -46,7 +46,7 @@ mut("stamp-asremoved-neg", IDR, "            -self.0 - 1\n", "            -self.
 mut("reuse-skip-last-child", NOD, "        self.last_child = None;\n        self.data", "        self.data", [], silent=True, note="redundant once J5 holds: removed nodes have no links, so reuse need not clear them")
 mut("reuse-skip-stamp", NOD, "        self.stamp.reuse();\n", "", ["C06"])
 mut("pop-no-last-reset", ARN, "            if self.first_free_slot.is_none() {\n                self.last_free_slot = None;\n            }\n", "", ["C07"])
-mut("free-no-reuseable-test", ARN, "        if stamp.reuseable() {", "        if true || stamp.reuseable() {", ["C06", "C07"])
+mut("free-no-reuseable-test", ARN, "        if stamp.reuseable() {", "        if true || stamp.reuseable() {", ["C07"], note="C06's O2 is conditional on reuseable(); that only reuseable slots are enqueued is C07's clause")
 mut("free-link-from-head", ARN, "            if let Some(index) = self.last_free_slot {", "            if let Some(index) = self.first_free_slot {", ["C07"])
 mut("new-node-always-push", ARN, "            let node = &mut self.nodes[index];\n            node.reuse(data);\n            (index, node.stamp)",
     "            let _ = index;\n            let index = self.nodes.len();\n            let node = Node::new(data);\n            let stamp = node.stamp;\n            self.nodes.push(node);\n            (index, stamp)", ["C07"])
